@@ -77,6 +77,8 @@ func loadStored(b kv.Base) (uint64, error) {
 type Task struct {
 	Kind string `json:"k"` // update | get
 	V    uint64 `json:"v,omitempty"`
+	// FailRead n > 0: the n-th storage read (Load) this request issues fails (a failed etcd read)
+	FailRead int `json:"fr,omitempty"`
 }
 
 type ConcCase struct {
@@ -115,6 +117,9 @@ func genConc(t *rapid.T) ConcCase {
 		if k == "update" {
 			tk.V = genValue(t, "v")
 		}
+		if rapid.IntRange(0, 3).Draw(t, "failRead") == 3 {
+			tk.FailRead = 1 // both requests read the safe point exactly once
+		}
 		c.Tasks = append(c.Tasks, tk)
 	}
 	// start + load + save per update, start + load per get
@@ -139,6 +144,7 @@ type taskRec struct {
 	loadStep      int // decision step at which its Load / Save was released (-1 = none)
 	saveStep      int
 	blockedOnHarn bool
+	readFault     bool // one of its reads was failed by the harness
 }
 
 type concOutcome struct {
@@ -239,17 +245,24 @@ func execConc(fx *livesrv.Fixture, c ConcCase, serialize bool) (*concOutcome, er
 		}
 		out.stored = append(out.stored, v)
 	}
+	loads := make([]int, len(c.Tasks))
 	fin := s.Run(c.Sched, func(step, task int, kind, key string) gate.Decision {
 		observe()
+		d := gate.Proceed
 		mu.Lock()
 		switch kind {
 		case "load":
 			out.recs[task].loadStep = step
+			loads[task]++
+			if c.Tasks[task].FailRead == loads[task] {
+				out.recs[task].readFault = true
+				d = gate.Fail
+			}
 		case "save":
 			out.recs[task].saveStep = step
 		}
 		mu.Unlock()
-		return gate.Proceed
+		return d
 	})
 	if !fin {
 		out.watchdog = true
@@ -348,9 +361,13 @@ func runConc(c ConcCase) (vkit.Info, error) {
 	}
 	nErr := 0
 	for _, r := range o.recs {
-		if !r.ok {
+		// a request one of whose reads was failed may answer with an error (it is then no acknowledgement);
+		// if it answers with a value, that value is judged like any other
+		if !r.ok && !r.readFault {
 			nErr++
 		}
+		info.ClassIf(r.readFault && !r.ok, "read-fault:error")
+		info.ClassIf(r.readFault && r.ok, "read-fault:answered")
 	}
 	if nErr > 0 {
 		// a request failed for a reason of the fixture (no fault is injected here): undecided
@@ -491,6 +508,8 @@ type SOp struct {
 	Rel  bool   `json:"rel,omitempty"` // safe point = current model minimum + D (floored at 0)
 	D    int    `json:"d,omitempty"`
 	SP   uint64 `json:"sp,omitempty"`
+	// FailRead n > 0: the n-th storage read (LoadRange) this request issues fails
+	FailRead int `json:"fr,omitempty"`
 }
 
 type SvcCase struct {
@@ -530,6 +549,9 @@ func genSvc(t *rapid.T) SvcCase {
 					op.SP--
 				}
 			}
+		}
+		if op.Kind == "update" {
+			op.FailRead = rapid.SampledFrom([]int{0, 0, 0, 0, 0, 1, 1, 2}).Draw(t, "failRead")
 		}
 		c.Ops = append(c.Ops, op)
 		// frequent pattern: a service registers with a TTL next to the overflow boundary of now+TTL at (or just
@@ -668,6 +690,19 @@ func runSvc(c SvcCase) (vkit.Info, error) {
 			return info, err
 		}
 	}
+	// read faults: the n-th Load/LoadRange issued while armed fails (clean failure of the read)
+	rfN, rfSeen := 0, 0
+	w.SetGate(func(kind, key string) error {
+		if kind == "load" || kind == "range" {
+			if rfN > 0 {
+				rfSeen++
+				if rfSeen == rfN {
+					return faultkv.ErrInjected
+				}
+			}
+		}
+		return nil
+	})
 	// service operations never touch the cluster GC safe point: it stays readable and never decreases
 	checkGC := func(where string) error {
 		v, err := loadStored(base)
@@ -768,8 +803,11 @@ func runSvc(c SvcCase) (vkit.Info, error) {
 				sp = mn + uint64(op.D)
 			}
 		}
+		rfN, rfSeen = op.FailRead, 0
 		resp, err := fx.Svr.UpdateServiceGCSafePoint(ctx, &pdpb.UpdateServiceGCSafePointRequest{
 			Header: fx.Header(), ServiceId: []byte(id), TTL: ttl, SafePoint: sp})
+		readFault := rfN > 0 && rfSeen >= rfN
+		rfN = 0
 		na, nerr := fx.Now()
 		if nerr != nil {
 			return inconclusive("tso-error")
@@ -793,6 +831,39 @@ func runSvc(c SvcCase) (vkit.Info, error) {
 		if gw, ok := post[gcWorker]; err == nil && (!ok || gw.Exp != math.MaxInt64) {
 			return info, vkit.Errf("gc_worker entry missing or with finite lifetime: %s", desc())
 		}
+		if readFault && err != nil {
+			// One of the request's reads failed and the request answered with an error: it is no acknowledgement,
+			// and whatever it did before the failed read may stay (the ttl<=0 removal precedes the first read, the
+			// registration precedes the second). What a read fault must NOT do: drop or change the entry of any
+			// other live service, delete gc_worker, or leave entries nobody asked for.
+			for k, e := range pre {
+				if k == id && k != gcWorker {
+					continue
+				}
+				if k != gcWorker && e.Exp < na.Unix() {
+					continue // expired or expiring: may have been pruned
+				}
+				g, ok := post[k]
+				if !ok {
+					return info, vkit.Errf("a failed storage read made the request drop the live entry %q: %s", k, desc())
+				}
+				if g.SP != e.SP && !(k == id && g.SP == sp) {
+					return info, vkit.Errf("a failed storage read changed the safe point of %q from %d to %d: %s", k, e.SP, g.SP, desc())
+				}
+			}
+			for k, g := range post {
+				if _, had := pre[k]; had || k == gcWorker {
+					continue
+				}
+				if !(k == id && ttl > 0 && g.SP == sp) {
+					return info, vkit.Errf("a failed storage read left an entry nobody asked for, %q {sp %d}: %s", k, g.SP, desc())
+				}
+			}
+			model = post
+			info.Class("read-fault:error")
+			continue
+		}
+		info.ClassIf(readFault, "read-fault:answered")
 		// ---- reference model
 		want := copyState(pre)
 		if ttl <= 0 && id != gcWorker {
